@@ -290,9 +290,9 @@ func checkC14(c *Ctx) {
 	ruleKeyTrackerProtocol(c, dv)
 	// writers of keyTracker
 	for _, s := range c.P.writersOfField(dv.fields["keyTracker"]) {
-		name := dv.ownerOf(s.Fn).Name()
+		name := dv.refName(dv.ownerOf(s.Fn))
 		key := "write(Device.keyTracker)@" + shortFn(s.Fn)
-		if name == "handleKEYEvent" || name == "NewDevice" {
+		if sameAnchorName(name, "handleKEYEvent") || sameAnchorName(name, "NewDevice") {
 			c.OK("R14.1", key, c.P.Pos(s.Instr.Pos()), "allowed writer")
 		} else {
 			c.Bad("R14.1", key, c.P.Pos(s.Instr.Pos()), "keyTracker is written outside the key handler: it would no longer mean 'keys currently down'")
